@@ -254,7 +254,7 @@ class Sub(object):
     parallel  : False to run in the parent process (e.g. for checks that manage threads)
     """
 
-    def __init__(self, name, gen, evalf, chunk=200, floor=1, parallel=True, doc=''):
+    def __init__(self, name, gen, evalf, chunk=200, floor=1, parallel=True, doc='', timeout=0):
         self.name = name
         self.gen = gen
         self.evalf = evalf
@@ -262,6 +262,7 @@ class Sub(object):
         self.floor = floor
         self.parallel = parallel
         self.doc = doc
+        self.timeout = timeout      # seconds per case (0 = default 180 s; VERIF_CASE_TIMEOUT overrides)
 
 
 class HarnessError(Exception):
@@ -276,12 +277,49 @@ def _in_repo(tb):
     return False
 
 
+class CaseTimeout(BaseException):      # not an Exception: rec.call() must not swallow it as a library outcome
+    pass
+
+
+_TIMEOUTS = {}     # sub-check -> time-outs seen in this worker process
+
+
+def _case_limit():
+    try:
+        return float(os.environ.get('VERIF_CASE_TIMEOUT', '') or 0)
+    except ValueError:
+        return 0.0
+
+
 def eval_one(sub, case, rec):
+    """evaluates one case under a watchdog: a change that makes the library loop forever (e.g. an iteration that no
+    longer converges) must end as a reported violation, not as a check that never returns"""
+    import signal
     rec.begin_case(sub.name, case)
+    if _TIMEOUTS.get(sub.name, 0) >= 2:
+        # the violation is already recorded twice by this worker; do not spend the time limit on every remaining case
+        rec.skip('not run: the library already timed out twice in this sub-check')
+        return
+    limit = _case_limit() or getattr(sub, 'timeout', 0) or 180.0
+    use_alarm = hasattr(signal, 'setitimer') and __import__('threading').current_thread() is __import__('threading').main_thread()
+
+    def on_alarm(signum, frame):
+        raise CaseTimeout('case did not finish within %.0f s' % limit)
+    old = None
+    if use_alarm:
+        old = signal.signal(signal.SIGALRM, on_alarm)
+        signal.setitimer(signal.ITIMER_REAL, limit)
     try:
         sub.evalf(case, rec)
     except HarnessError:
         raise
+    except CaseTimeout as e:
+        _TIMEOUTS[sub.name] = _TIMEOUTS.get(sub.name, 0) + 1
+        et, ev, tb = sys.exc_info()
+        where = [fs for fs in traceback.extract_tb(tb) if os.path.realpath(fs.filename).startswith(REPO + os.sep)]
+        site = ('%s:%s' % (os.path.relpath(os.path.realpath(where[-1].filename), REPO), where[-1].name)) if where else 'harness'
+        rec.fail('the library did not return within %.0f s (non-terminating iteration?) in %s' % (limit, site), site='timeout:' + site,
+                 observed=str(e), coords={'exc': 'timeout'})
     except Exception as e:
         et, ev, tb = sys.exc_info()
         if _in_repo(tb):
@@ -292,6 +330,10 @@ def eval_one(sub, case, rec):
                      observed=e, coords={'exc': type(e).__name__})
         else:
             raise HarnessError('harness exception in %s case %r:\n%s' % (sub.name, case, traceback.format_exc()))
+    finally:
+        if use_alarm:
+            signal.setitimer(signal.ITIMER_REAL, 0)
+            signal.signal(signal.SIGALRM, old)
 
 
 _G = {}
